@@ -17,6 +17,8 @@ pub struct Profile {
     pub timeouts: bool,  // clock advances past deadlines, retries
     pub tx_fail: bool,   // partial / failed sends
     pub rx_noise: bool,  // duplicates and garbage
+    /// monitors reported under this profile (names without the key prefix); empty = all of them
+    pub only: &'static [&'static str],
 }
 
 pub fn fnv32(s: &str) -> u32 {
@@ -739,6 +741,10 @@ fn execute(plan: &Plan, prof: &Profile, sched_rng: &mut Rng, forced: Option<&[St
     }
     let rep = real_rep;
     for (k, w) in staged {
+        let name = k.split_once('/').map(|x| x.1).unwrap_or(&k);
+        if !prof.only.is_empty() && !prof.only.contains(&name) {
+            continue;
+        }
         rep.fail(&format!("{k}{cause_suffix}"), &w, &line);
     }
     for c in &causes {
